@@ -121,25 +121,26 @@ Lemma full_pad_shift ls sh H : full_pad ls sh H = true -> 0 < sh.
 Proof. unfold full_pad. destruct ls; [|discriminate]. intros Hx. apply andb_prop in Hx. destruct Hx as [Hx _]. apply N.ltb_lt in Hx. exact Hx. Qed.
 
 
-Lemma dt_np ls n al below W H : H < U16 -> n + U16 <= USIZE ->
-  dt_panics ls n al below W H = None.
+(** since fix 7d42cff the count is capped at the height first: no hypothesis on [n] *)
+Lemma dt_np ls n al below W H : H < U16 -> dt_panics ls n al below W H = None.
 Proof.
-  intros HH Hn. unfold dt_panics.
+  intros HH. unfold dt_panics.
   assert (HH' : H < USIZE_MAX) by (unfold U16, USIZE_MAX, U64MAX in *; lia).
-  set (in_arm := match al with Bottom => visual_line_count_rs ls W <? n | Top => false end).
-  assert (E1 : in_arm && (n <? visual_line_count_rs ls W) = false).
+  set (nc := N.min n H).
+  set (in_arm := match al with Bottom => visual_line_count_rs ls W <? nc | Top => false end).
+  assert (E1 : in_arm && (nc <? visual_line_count_rs ls W) = false).
   { unfold in_arm. destruct al; [reflexivity|].
-    destruct (N.ltb_spec (visual_line_count_rs ls W) n); [|reflexivity].
+    destruct (N.ltb_spec (visual_line_count_rs ls W) nc); [|reflexivity].
     cbn [andb]. apply N.ltb_ge. lia. }
   rewrite E1.
-  assert (E2 : negb (starts_with_text ls) && full_pad ls (dt_shift0 ls n al W) H && (dt_shift0 ls n al W <? 1) = false).
-  { destruct (full_pad ls (dt_shift0 ls n al W) H) eqn:Ef; [|now rewrite andb_false_r].
+  assert (E2 : negb (starts_with_text ls) && full_pad ls (dt_shift0 ls nc al W) H && (dt_shift0 ls nc al W <? 1) = false).
+  { destruct (full_pad ls (dt_shift0 ls nc al W) H) eqn:Ef; [|now rewrite andb_false_r].
     apply full_pad_shift in Ef. rewrite andb_true_r.
-    assert ((dt_shift0 ls n al W <? 1) = false) as -> by (apply N.ltb_ge; lia). apply andb_false_r. }
+    assert ((dt_shift0 ls nc al W <? 1) = false) as -> by (apply N.ltb_ge; lia). apply andb_false_r. }
   rewrite E2, paint_np by exact HH'.
-  pose proof (dt_count_rs_le ls n al W H HH').
-  destruct (N.leb_spec USIZE (dt_count_rs ls n al W H)); [|reflexivity].
-  unfold U16, USIZE, U64 in *. lia.
+  pose proof (dt_count_rs_le ls nc al W H HH').
+  destruct (N.leb_spec USIZE (dt_count_rs ls nc al W H)); [|reflexivity].
+  unfold nc, U16, USIZE, U64 in *. lia.
 Qed.
 
 (** the arithmetic of the guards IS the model's wherever the model is faithful: for W >= 1 and
@@ -209,10 +210,6 @@ Proof.
   rewrite oob_false by (apply Hb; left; reflexivity). apply IH. intros j Hj. apply Hb. right. exact Hj.
 Qed.
 
-(** the counters of the MultiProgress target leave room for one more screen *)
-Definition mp_fits (m : mstate) : Prop :=
-  forall tg, ms_target m = TTerm tg -> tt_n tg + ms_zombie_lines m + U16 <= USIZE.
-
 Lemma ms_mark_np m idx : CoreInv m -> In idx (ms_order m) -> ms_mark_zombie_panics m idx = None.
 Proof.
   intros CI Hi. unfold ms_mark_zombie_panics.
@@ -252,9 +249,9 @@ Section Ms.
   Hypothesis HH : H < U16.
 
   Lemma ms_draw_np m force extra now :
-    CoreInv m -> extra <> Some [] -> mp_fits m -> ms_draw_panics W H m force extra now = None.
+    CoreInv m -> extra <> Some [] -> ms_draw_panics W H m force extra now = None.
   Proof.
-    intros CI Hex Hfit. unfold ms_draw_panics.
+    intros CI Hex. unfold ms_draw_panics.
     destruct (ms_target m) as [|tg|i] eqn:Ht; try reflexivity.
     assert (Ex : match extra with Some [] => true | _ => false end = false).
     { destruct extra as [[|l r]|]; try reflexivity. congruence. }
@@ -262,35 +259,26 @@ Section Ms.
     assert (Hb : forall i, In i (ms_order m) -> (N.to_nat i < length (ms_members m))%nat).
     { intros i Hi. apply (ci_bound m CI). left. exact Hi. }
     rewrite scan_np by exact Hb.
-    set (ht := _ || _).
-    set (tg1 := if ht then tt_adjust_clear tg (ms_zombie_lines m) else tg).
-    destruct (tt_allow_keeps tg1 (force || (0 <? visual_line_count (ms_orphans m) W)) now) as (En & _ & _).
-    destruct (tt_allow tg1 (force || (0 <? visual_line_count (ms_orphans m) W)) now) as [allowed tg2].
-    cbn [snd] in En. destruct allowed; cbn [negb]; [|reflexivity].
+    match goal with |- context [tt_allow ?t ?f now] => destruct (tt_allow t f now) as [allowed tg2] end.
+    destruct allowed; cbn [negb]; [|reflexivity].
     rewrite existsb_oob_false by exact Hb.
-    rewrite dt_np; [| exact HH |].
-    - apply reap_np; [exact CI|]. intros i Hi. left. eapply head_zombies_incl; eauto.
-    - rewrite En. specialize (Hfit tg Ht). unfold tg1. destruct ht; cbn [tt_adjust_clear tt_n]; lia.
+    rewrite dt_np by exact HH.
+    apply reap_np; [exact CI|]. intros i Hi. left. eapply head_zombies_incl; eauto.
   Qed.
 
-  Lemma ms_clear_np m : mp_fits m -> ms_clear_panics W H m = None.
+  Lemma ms_clear_np m : ms_clear_panics W H m = None.
   Proof.
-    intros Hfit. unfold ms_clear_panics. destruct (ms_target m) as [|tg|i] eqn:Ht; try reflexivity.
-    apply dt_np; [exact HH|]. specialize (Hfit tg Ht). cbn [tt_adjust_clear tt_n]. lia.
+    unfold ms_clear_panics. destruct (ms_target m) as [|tg|i]; try reflexivity. apply dt_np. exact HH.
   Qed.
 
-  Lemma ms_suspend_np m ws now c :
-    CoreInv m -> mp_fits m -> ms_suspend_panics W H fails m ws now c = None.
+  Lemma ms_suspend_np m ws now c : CoreInv m -> ms_suspend_panics W H fails m ws now c = None.
   Proof.
-    intros CI Hfit. unfold ms_suspend_panics. rewrite ms_clear_np by exact Hfit.
+    intros CI. unfold ms_suspend_panics. rewrite ms_clear_np.
     unfold ms_clear. destruct (ms_target m) as [|tg|i] eqn:Ht.
     - rewrite Ht. reflexivity.
     - destruct (term_draw W H fails (tt_adjust_clear tg (ms_zombie_lines m)) [] c) as [[[tg2 e] c'] ok].
       cbn [ms_target set_ms_target set_ms_zombie_lines].
-      apply ms_draw_np.
-      + eapply same_core_inv; [|exact CI]. repeat split.
-      + discriminate.
-      + intros tg' Ht'. cbn in Ht'. injection Ht' as <-. cbn. unfold U16, USIZE, U64. lia.
+      apply ms_draw_np; [|discriminate]. eapply same_core_inv; [|exact CI]. repeat split.
     - rewrite Ht. reflexivity.
   Qed.
 End Ms.
@@ -298,13 +286,11 @@ End Ms.
 (* ------------------------------------------------------------------ bar level *)
 Definition keeps_target (f : bar -> bar) : Prop := forall x, b_target (f x) = b_target x.
 
-(** what a call through bar [b] needs: a member's slot is in the ordering; a terminal of its own
-    has a counter with room for [k] more screens *)
-Definition bar_ready (k : N) (s : sys) (b : N) : Prop :=
+(** what a call through bar [b] needs: a member's slot is in the ordering *)
+Definition bar_ready (s : sys) (b : N) : Prop :=
   match b_target (get_bar s b) with
   | TMulti idx => In idx (ms_order (s_mp s))
-  | TTerm tg => tt_n tg + k * U16 <= USIZE
-  | THidden => True
+  | _ => True
   end.
 
 Lemma target_inrange s b : b_target (get_bar s b) <> THidden -> (N.to_nat b < length (s_bars s))%nat.
@@ -313,21 +299,19 @@ Proof.
   rewrite get_bar_oob in Hn by exact Hl. exfalso. apply Hn. reflexivity.
 Qed.
 
-Lemma bar_ready_upd k s b f : keeps_target f -> bar_ready k s b -> bar_ready k (upd_bar s b f) b.
+Lemma bar_ready_upd s b f : keeps_target f -> bar_ready s b -> bar_ready (upd_bar s b f) b.
 Proof.
   intros Hf Hr. destruct (Nat.lt_ge_cases (N.to_nat b) (length (s_bars s))) as [Hl|Hl].
   - unfold bar_ready in *. rewrite get_upd_same by exact Hl. rewrite Hf. exact Hr.
   - rewrite upd_bar_oob by exact Hl. exact Hr.
 Qed.
 
-(** the conditions on the MultiState under which its draws reach no site *)
-Definition mp_ready (m : mstate) : Prop := CoreInv m /\ mp_fits m.
+(** the condition on the MultiState under which its draws reach no site *)
+Definition mp_ready (m : mstate) : Prop := CoreInv m.
 
 Lemma mp_ready_store m idx texts bars :
   mp_ready m -> In idx (ms_order m) -> mp_ready (ms_store m idx texts bars).
-Proof.
-  intros (CI & Hfit) Hi. split; [exact (mt_core _ _ _ (ms_store_trans m idx texts bars CI Hi)) | exact Hfit].
-Qed.
+Proof. intros CI Hi. exact (mt_core _ _ _ (ms_store_trans m idx texts bars CI Hi)). Qed.
 
 Section BarLevel.
   Variable W H : N.
@@ -335,61 +319,45 @@ Section BarLevel.
   Hypothesis HH : H < U16.
 
   Lemma bar_draw_np s b force now :
-    mp_ready (s_mp s) -> bar_ready 1 s b -> bar_draw_panics W H s b force now = None.
+    mp_ready (s_mp s) -> bar_ready s b -> bar_draw_panics W H s b force now = None.
   Proof.
     intros MR Hr. unfold bar_draw_panics, bar_ready in *.
     destruct (b_target (get_bar s b)) as [|tg|idx]; [reflexivity| |].
-    - destruct (tt_allow_keeps tg (force || finished (get_bar s b)) now) as (En & _ & _).
-      destruct (tt_allow tg (force || finished (get_bar s b)) now) as [allowed tg1]. cbn [snd] in En.
-      destruct allowed; cbn [negb]; [|reflexivity]. apply dt_np; [exact HH | lia].
+    - destruct (tt_allow tg (force || finished (get_bar s b)) now) as [allowed tg1].
+      destruct allowed; cbn [negb]; [|reflexivity]. apply dt_np. exact HH.
     - apply orelse_None. split.
-      + unfold ms_store_panics. rewrite oob_false; [reflexivity|]. apply (ci_bound _ (proj1 MR)). left. exact Hr.
-      + destruct (mp_ready_store (s_mp s) idx []
-                    (match ms_width W (s_mp s) with Some _ => frame_of (get_bar s b) | None => [] end) MR Hr)
-          as (CI' & Hfit').
-        apply (ms_draw_np W H fails HH); auto. discriminate.
+      + unfold ms_store_panics. rewrite oob_false; [reflexivity|]. apply (ci_bound _ MR). left. exact Hr.
+      + apply (ms_draw_np W H HH); [|discriminate]. apply mp_ready_store; assumption.
   Qed.
 
   Lemma upd_draw_np s b f force now : keeps_target f ->
-    mp_ready (s_mp s) -> bar_ready 1 s b -> bar_draw_panics W H (upd_bar s b f) b force now = None.
+    mp_ready (s_mp s) -> bar_ready s b -> bar_draw_panics W H (upd_bar s b f) b force now = None.
   Proof. intros Hf MR Hr. apply bar_draw_np; [exact MR | apply bar_ready_upd; assumption]. Qed.
 
   Lemma bar_println_np s b msg now :
-    mp_ready (s_mp s) -> bar_ready 1 s b -> bar_println_panics W H s b msg now = None.
+    mp_ready (s_mp s) -> bar_ready s b -> bar_println_panics W H s b msg now = None.
   Proof.
     intros MR Hr. unfold bar_println_panics, bar_ready in *.
     destruct (b_target (get_bar s b)) as [|tg|idx]; [reflexivity| |].
-    - apply dt_np; [exact HH | lia].
+    - apply dt_np. exact HH.
     - apply orelse_None. split.
-      + unfold ms_store_panics. rewrite oob_false; [reflexivity|]. apply (ci_bound _ (proj1 MR)). left. exact Hr.
-      + destruct (mp_ready_store (s_mp s) idx (text_lines msg)
-                    (match ms_width W (s_mp s) with Some _ => frame_of (get_bar s b) | None => [] end) MR Hr)
-          as (CI' & Hfit').
-        apply (ms_draw_np W H fails HH); auto. discriminate.
-  Qed.
-
-  Lemma term_draw_n_le tg ls c :
-    tt_n (fst (fst (fst (term_draw W H fails tg ls c)))) <= H + tt_n tg.
-  Proof.
-    unfold term_draw. pose proof (draw_to_term_n_le ls (tt_n tg) (tt_align tg) (tt_below tg) W H) as Hle.
-    destruct (draw_to_term ls (tt_n tg) (tt_align tg) (tt_below tg) W H) as [[ops n'] below'].
-    destruct (emit fails c ops) as [[e c'] ok]. cbn [fst snd tt_n] in *. destruct ok; lia.
+      + unfold ms_store_panics. rewrite oob_false; [reflexivity|]. apply (ci_bound _ MR). left. exact Hr.
+      + apply (ms_draw_np W H HH); [|discriminate]. apply mp_ready_store; assumption.
   Qed.
 
   Lemma bar_suspend_np s b ws now :
-    mp_ready (s_mp s) -> bar_ready 2 s b -> bar_suspend_panics W H fails s b ws now = None.
+    mp_ready (s_mp s) -> bar_ready s b -> bar_suspend_panics W H fails s b ws now = None.
   Proof.
     intros MR Hr. unfold bar_suspend_panics. unfold bar_ready in Hr.
     destruct (b_target (get_bar s b)) as [|tg|idx] eqn:Ht; [reflexivity| |].
-    - apply orelse_None. split; [apply dt_np; [exact HH | lia]|].
-      pose proof (term_draw_n_le tg [] (s_calls s)) as Hle.
-      destruct (term_draw W H fails tg [] (s_calls s)) as [[[tg1 e1] c1] ok1]. cbn [fst] in Hle.
+    - apply orelse_None. split; [apply dt_np; exact HH|].
+      destruct (term_draw W H fails tg [] (s_calls s)) as [[[tg1 e1] c1] ok1].
       destruct (emit_each fails c1 (map TLine ws)) as [e2 c2].
       apply bar_draw_np; [exact MR|].
       unfold bar_ready. change (get_bar (set_s_calls ?x c2) b) with (get_bar x b).
       rewrite get_upd_same by (apply target_inrange; rewrite Ht; discriminate).
-      cbn [b_target set_b_target]. unfold U16 in *. lia.
-    - destruct MR as (CI & Hfit). apply (ms_suspend_np W H fails HH); assumption.
+      cbn [b_target set_b_target]. exact I.
+    - apply (ms_suspend_np W H fails HH). exact MR.
   Qed.
 End BarLevel.
 
@@ -421,21 +389,14 @@ Section Step.
   Variable fails : N -> bool.
   Hypothesis HH : H < U16.
 
-  Lemma minv_mp_ready s : MInv s -> counters_fit s -> mp_ready (s_mp s).
-  Proof.
-    intros MI [_ Hc]. split; [apply MInv_core; exact MI|].
-    intros tg Ht. specialize (Hc tg Ht). unfold U16 in *. lia.
-  Qed.
+  Lemma minv_mp_ready s : MInv s -> mp_ready (s_mp s).
+  Proof. apply MInv_core. Qed.
 
-  Lemma minv_bar_ready s b : MInv s -> counters_fit s -> alive s b = true -> bar_ready 2 s b.
+  Lemma minv_bar_ready s b : MInv s -> alive s b = true -> bar_ready s b.
   Proof.
-    intros MI [Hc _] Ha. unfold bar_ready. destruct (b_target (get_bar s b)) as [|tg|idx] eqn:Ht; [exact I| |].
-    - apply (Hc b tg Ht).
-    - apply (proj1 (mi_alive s MI b idx Ha Ht)).
+    intros MI Ha. unfold bar_ready. destruct (b_target (get_bar s b)) as [|tg|idx] eqn:Ht; [exact I|exact I|].
+    apply (proj1 (mi_alive s MI b idx Ha Ht)).
   Qed.
-
-  Lemma bar_ready_mono s b : bar_ready 2 s b -> bar_ready 1 s b.
-  Proof. unfold bar_ready. destruct (b_target (get_bar s b)); auto. unfold U16. lia. Qed.
 
   Lemma insert_tail_np s b l now : MInv s ->
     (forall r, l = LAfter r \/ l = LBefore r -> In r (ms_order (s_mp s))) ->
@@ -454,43 +415,41 @@ Section Step.
   Qed.
 
   Lemma step_np s a now o :
-    MInv s -> Refines s a -> counters_fit s ->
+    MInv s -> Refines s a ->
     op_ok s o = true -> step_panics W H fails s now o = None.
   Proof.
-    intros MI RF Hcf Hk.
-    pose proof (minv_mp_ready s MI Hcf) as MR.
+    intros MI RF Hk.
+    pose proof (minv_mp_ready s MI) as MR.
     assert (Hal : forall b, op_bar o = Some b -> alive s b = true).
     { intros b Hb. pose proof Hk as Hk'. unfold op_ok in Hk'. rewrite Hb in Hk'. apply andb_prop in Hk'. tauto. }
-    assert (R2 : forall b, op_bar o = Some b -> bar_ready 2 s b).
+    assert (R1 : forall b, op_bar o = Some b -> bar_ready s b).
     { intros b Hb. apply minv_bar_ready; auto. }
-    assert (R1 : forall b, op_bar o = Some b -> bar_ready 1 s b).
-    { intros b Hb. apply bar_ready_mono, R2, Hb. }
     destruct o; cbn [step_panics]; try reflexivity;
-      try (apply (upd_draw_np W H fails HH); [intros x; reflexivity | exact MR | apply R1; reflexivity]);
-      try (apply (bar_draw_np W H fails HH); [exact MR | apply R1; reflexivity]).
+      try (apply (upd_draw_np W H HH); [intros x; reflexivity | exact MR | apply R1; reflexivity]);
+      try (apply (bar_draw_np W H HH); [exact MR | apply R1; reflexivity]).
     - (* inc *) unfold bar_pos_update_panics.
       destruct (ap_allow _ now) as [al ap']. destruct al; [|reflexivity].
-      unfold bar_tick_panics. apply (bar_draw_np W H fails HH); auto.
+      unfold bar_tick_panics. apply (bar_draw_np W H HH); auto.
       repeat (apply bar_ready_upd; [intros x; reflexivity|]). apply R1. reflexivity.
     - (* dec *) unfold bar_pos_update_panics.
       destruct (ap_allow _ now) as [al ap']. destruct al; [|reflexivity].
-      unfold bar_tick_panics. apply (bar_draw_np W H fails HH); auto.
+      unfold bar_tick_panics. apply (bar_draw_np W H HH); auto.
       repeat (apply bar_ready_upd; [intros x; reflexivity|]). apply R1. reflexivity.
     - (* set_position *) unfold bar_pos_update_panics.
       destruct (ap_allow _ now) as [al ap']. destruct al; [|reflexivity].
-      unfold bar_tick_panics. apply (bar_draw_np W H fails HH); auto.
+      unfold bar_tick_panics. apply (bar_draw_np W H HH); auto.
       repeat (apply bar_ready_upd; [intros x; reflexivity|]). apply R1. reflexivity.
-    - (* println *) apply (bar_println_np W H fails HH); auto.
+    - (* println *) apply (bar_println_np W H HH); auto.
     - (* suspend *) apply (bar_suspend_np W H fails HH); auto.
-    - (* finish *) unfold bar_finish_panics. apply (upd_draw_np W H fails HH); auto. apply keeps_finish.
-    - (* finish_using_style *) unfold bar_finish_panics. apply (upd_draw_np W H fails HH); auto. apply keeps_finish.
+    - (* finish *) unfold bar_finish_panics. apply (upd_draw_np W H HH); auto. apply keeps_finish.
+    - (* finish_using_style *) unfold bar_finish_panics. apply (upd_draw_np W H HH); auto. apply keeps_finish.
     - (* drop *)
       assert (Ha : alive s b = true) by (apply Hal; reflexivity).
       unfold bar_drop_panics. destruct (finished (get_bar s b)) eqn:Hf.
       + unfold mark_zombie_panics. destruct (b_target (get_bar s b)) as [|tg|idx] eqn:Ht; try reflexivity.
         apply ms_mark_np; [apply MInv_core; exact MI|]. apply (mi_alive s MI b idx Ha Ht).
       + apply orelse_None. split.
-        * unfold bar_finish_panics. apply (upd_draw_np W H fails HH); auto. apply keeps_finish.
+        * unfold bar_finish_panics. apply (upd_draw_np W H HH); auto. apply keeps_finish.
         * destruct (nonstruct_sim W H fails s a now (OFinish b (b_on_finish (get_bar s b))) MI RF) as (r & MI1 & _).
           { unfold op_ok. cbn. rewrite Ha. reflexivity. } { reflexivity. }
           pose proof (step_bars_pres W H fails s now (OFinish b (b_on_finish (get_bar s b))) eq_refl) as BP.
@@ -516,19 +475,15 @@ Section Step.
       destruct (b_target (get_bar s b)) as [|tg|idx] eqn:Ht; try reflexivity.
       cbn [s_mp upd_bar set_s_bars].
       destruct (mi_alive s MI b idx Ha Ht) as [Hi _].
-      destruct MR as (CI & Hfit).
+      pose proof MR as CI.
       apply orelse_None. split; [apply remove_idx_np; auto|].
-      apply (ms_draw_np W H fails HH); auto.
-      + apply remove_idx_core; auto.
-      + discriminate.
-      + intros tg Htg. destruct (remove_idx_other (s_mp s) idx) as (_ & _ & Ez & Et).
-        rewrite Ez. rewrite Et in Htg. apply Hfit. exact Htg.
+      apply (ms_draw_np W H HH); [|discriminate]. apply remove_idx_core; auto.
     - (* mp.println *)
-      destruct MR as (CI & Hfit). apply (ms_draw_np W H fails HH); auto.
+      apply (ms_draw_np W H HH); [exact MR|].
       destruct m as [|c r]; [discriminate|].
       intros Hc. injection Hc as Hc. apply map_eq_nil in Hc. revert Hc. apply lines_of_nonempty. discriminate.
-    - (* mp.suspend *) destruct MR as (CI & Hfit). apply (ms_suspend_np W H fails HH); auto.
-    - (* mp.clear *) destruct MR as (CI & Hfit). apply (ms_clear_np W H fails HH); auto.
+    - (* mp.suspend *) apply (ms_suspend_np W H fails HH); exact MR.
+    - (* mp.clear *) apply (ms_clear_np W H HH).
   Qed.
 End Step.
 
@@ -548,10 +503,10 @@ Section Exact.
   Hypothesis HH : H < U16.
 
   Theorem step_misuse_exact s a now o :
-    MInv s -> Refines s a -> counters_fit s ->
+    MInv s -> Refines s a ->
     handles_alive s o = true -> step_panics W H fails s now o = misuse_site s o.
   Proof.
-    intros MI RF Hcf Hh. destruct (misuse_site s o) as [p|] eqn:Em.
+    intros MI RF Hh. destruct (misuse_site s o) as [p|] eqn:Em.
     - unfold misuse_site in Em. destruct o; try discriminate Em.
       destruct loc as [|q|q|r|r]; try discriminate Em; cbn [step_panics insert_ref_panics];
         destruct (is_member s r); try discriminate Em; cbn [orelse]; exact Em.
@@ -575,62 +530,42 @@ Section Runs.
       oracle [fails'] (the same or another one) *)
   Theorem no_panic_reachable fails fails' s0 ops now o :
     init_ok s0 -> hist_ok W H fails s0 ops ->
-    counters_fit (run W H fails s0 ops) ->
     op_ok (run W H fails s0 ops) o = true ->
     step_panics W H fails' (run W H fails s0 ops) now o = None.
   Proof.
-    intros Hi Hh Hcf Hk. destruct (reach_inv fails s0 ops Hi Hh) as (a & MI & RF).
+    intros Hi Hh Hk. destruct (reach_inv fails s0 ops Hi Hh) as (a & MI & RF).
     apply (step_np W H fails' HH _ a); assumption.
   Qed.
 
   (** (2): with live handles, a call panics iff it is one of the enumerated misuses, at that site *)
   Theorem misuse_panics_exactly fails fails' s0 ops now o :
     init_ok s0 -> hist_ok W H fails s0 ops ->
-    counters_fit (run W H fails s0 ops) ->
     handles_alive (run W H fails s0 ops) o = true ->
     step_panics W H fails' (run W H fails s0 ops) now o = misuse_site (run W H fails s0 ops) o
     /\ (step_panics W H fails' (run W H fails s0 ops) now o = None <-> op_ok (run W H fails s0 ops) o = true).
   Proof.
-    intros Hi Hh Hcf Hha. destruct (reach_inv fails s0 ops Hi Hh) as (a & MI & RF).
-    pose proof (step_misuse_exact W H fails' HH _ a now o MI RF Hcf Hha) as E.
+    intros Hi Hh Hha. destruct (reach_inv fails s0 ops Hi Hh) as (a & MI & RF).
+    pose proof (step_misuse_exact W H fails' HH _ a now o MI RF Hha) as E.
     split; [exact E|]. rewrite E, op_ok_split, Hha. cbn [andb].
     destruct (misuse_site (run W H fails s0 ops) o); split; intros Hx; try reflexivity; discriminate Hx.
   Qed.
 
   (** whole histories: no call of a valid history panics *)
   Theorem run_no_panic fails ops : forall s a, MInv s -> Refines s a ->
-    hist_ok W H fails s ops -> hist_fits W H fails s ops -> run_panics W H fails s ops = None.
+    hist_ok W H fails s ops -> run_panics W H fails s ops = None.
   Proof.
-    induction ops as [|[now o] rest IH]; intros s a MI RF Hh Hf; cbn [run_panics]; [reflexivity|].
-    destruct Hh as [Hk Hr]. destruct Hf as (Hcf & Hf).
-    rewrite (step_np W H fails HH s a now o MI RF Hcf Hk).
+    induction ops as [|[now o] rest IH]; intros s a MI RF Hh; cbn [run_panics]; [reflexivity|].
+    destruct Hh as [Hk Hr].
+    rewrite (step_np W H fails HH s a now o MI RF Hk).
     destruct (step_sim W H fails s a now o MI RF Hk) as (r & MI' & RF').
-    rewrite (IH _ _ MI' RF' Hr Hf). reflexivity.
+    rewrite (IH _ _ MI' RF' Hr). reflexivity.
   Qed.
 
   Theorem run_no_panic_init fails s0 ops :
-    init_ok s0 -> hist_ok W H fails s0 ops -> hist_fits W H fails s0 ops ->
-    run_panics W H fails s0 ops = None.
-  Proof. intros Hi Hh Hf. destruct (init_inv W (fun _ => false) s0 Hi) as [MI RF]. eapply run_no_panic; eauto. Qed.
+    init_ok s0 -> hist_ok W H fails s0 ops -> run_panics W H fails s0 ops = None.
+  Proof. intros Hi Hh. destruct (init_inv W (fun _ => false) s0 Hi) as [MI RF]. eapply run_no_panic; eauto. Qed.
 End Runs.
 (* ------------------------------------------------------------------ decidable hypotheses, witnesses *)
-Lemma counters_fit_b_ok s : counters_fit_b s = true -> counters_fit s.
-Proof.
-  unfold counters_fit_b. intros Hb. apply andb_prop in Hb. destruct Hb as [Hbars Hmp]. split.
-  - intros b tg Ht. destruct (Nat.lt_ge_cases (N.to_nat b) (length (s_bars s))) as [Hl|Hl].
-    + rewrite forallb_forall in Hbars. specialize (Hbars (get_bar s b) (nth_In _ _ Hl)).
-      rewrite Ht in Hbars. cbn [target_fits_b] in Hbars. apply N.leb_le in Hbars. lia.
-    + rewrite get_bar_oob in Ht by exact Hl. discriminate Ht.
-  - intros tg Ht. rewrite Ht in Hmp. cbn [target_fits_b] in Hmp. apply N.leb_le in Hmp. lia.
-Qed.
-
-Lemma hist_fits_b_ok W H fails ops : forall s, hist_fits_b W H fails s ops = true -> hist_fits W H fails s ops.
-Proof.
-  induction ops as [|[now o] r IH]; intros s Hb; cbn [hist_fits hist_fits_b] in *; [exact I|].
-  apply andb_prop in Hb. destruct Hb as [Hc Hr].
-  split; [apply counters_fit_b_ok; exact Hc | apply IH; exact Hr].
-Qed.
-
 Lemma hist_ok_b_ok W H fails ops : forall s, hist_ok_b W H fails s ops = true -> hist_ok W H fails s ops.
 Proof.
   induction ops as [|[now o] r IH]; intros s Hb; cbn [hist_ok hist_ok_b] in *; [exact I|].
@@ -658,7 +593,6 @@ Qed.
     W = 0 as well *)
 Lemma zero_width_regression :
   init_ok np_sys /\ hist_ok 0 10 np_nofail np_sys (np_ops ++ [(6, OTick 3)])
-  /\ hist_fits 0 10 np_nofail np_sys (np_ops ++ [(6, OTick 3)])
   /\ run_panics_pre_f8fa07f 0 10 np_nofail np_sys (np_ops ++ [(6, OTick 3)]) = Some (14%nat, P_draw_adjust_add)
   /\ step_panics_pre_f8fa07f 0 10 np_nofail (run 0 10 np_nofail np_sys np_ops) 6 (OMPrintln [104]) = Some P_draw_adjust_add
   /\ run_panics_pre_f8fa07f 1 10 np_nofail np_sys (np_ops ++ [(6, OTick 3)]) = None
@@ -667,18 +601,17 @@ Lemma zero_width_regression :
 Proof.
   split; [apply init_ok_b_ok; vm_compute; reflexivity|].
   split; [apply hist_ok_b_ok; vm_compute; reflexivity|].
-  split; [apply hist_fits_b_ok; vm_compute; reflexivity|].
   repeat split; vm_compute; reflexivity.
 Qed.
 
 (** non-vacuity of the positive theorems: a valid history with faults that goes through
     insert_after / insert_before / insert_from_back, a re-add, suspend, remove, mark_zombie at the
-    head, a flagged zombie reaped by a later draw, clear - every hypothesis holds at every state,
+    head, a flagged zombie reaped by a later draw, clear - the history is valid,
     on a 7x4 terminal and on a ZERO-WIDTH one *)
 Lemma nonvacuous_history :
-  init_ok np_sys /\ hist_ok 7 4 np_fails2 np_sys np_ops2 /\ hist_fits 7 4 np_fails2 np_sys np_ops2
+  init_ok np_sys /\ hist_ok 7 4 np_fails2 np_sys np_ops2
   /\ run_panics 7 4 np_fails2 np_sys np_ops2 = None
-  /\ hist_ok 0 4 np_fails2 np_sys np_ops2 /\ hist_fits 0 4 np_fails2 np_sys np_ops2
+  /\ hist_ok 0 4 np_fails2 np_sys np_ops2
   /\ run_panics 0 4 np_fails2 np_sys np_ops2 = None
   /\ map (fun k => ms_order (s_mp (run 7 4 np_fails2 np_sys (firstn k np_ops2)))) [4; 13; 16; 17; 19; 21]%nat
      = [[2; 0; 3; 1]; [2; 0; 1]; [2; 0; 1]; [0; 1]; [1]; []]
@@ -686,10 +619,8 @@ Lemma nonvacuous_history :
 Proof.
   split; [apply init_ok_b_ok; vm_compute; reflexivity|].
   split; [apply hist_ok_b_ok; vm_compute; reflexivity|].
-  split; [apply hist_fits_b_ok; vm_compute; reflexivity|].
   split; [vm_compute; reflexivity|].
   split; [apply hist_ok_b_ok; vm_compute; reflexivity|].
-  split; [apply hist_fits_b_ok; vm_compute; reflexivity|].
   split; [vm_compute; reflexivity|]. split; [vm_compute; reflexivity|]. vm_compute. discriminate.
 Qed.
 
@@ -701,345 +632,3 @@ Lemma misuse_example :
   /\ step_panics 5 10 np_nofail s 1 (OInsert (BBefore 2) 0) = Some P_insert_before_index_unwrap
   /\ step_panics 5 10 np_nofail s 1 (OInsert (BAfter 0) 1) = None.
 Proof. vm_compute. repeat split; reflexivity. Qed.
-
-(* ------------------------------------------------------------------ growth of the row counters *)
-From IndProofs Require Import MultiFrame.
-
-(** every row counter of the state is at most [B] *)
-Definition bar_le (B : N) (x : bar) : Prop :=
-  match b_target x with TTerm tg => tt_n tg <= B | _ => True end.
-Definition cbound (B : N) (s : sys) : Prop :=
-  Forall (bar_le B) (s_bars s) /\ region_count (s_mp s) <= B.
-
-Lemma updN_Forall {A} (P : A -> Prop) (f : A -> A) l : forall i,
-  Forall P l -> (forall x, P x -> P (f x)) -> Forall P (updN l i f).
-Proof.
-  induction l as [|x r IH]; intros i Hl Hf; [constructor|].
-  inversion Hl; subst. destruct i; cbn [updN]; constructor; auto.
-Qed.
-
-Lemma Forall_mono_le B B' l : B <= B' -> Forall (bar_le B) l -> Forall (bar_le B') l.
-Proof.
-  intros Hle Hl. eapply Forall_impl; [|exact Hl]. intros x. unfold bar_le. destruct (b_target x); auto. lia.
-Qed.
-
-Lemma cbound_mono B B' s : B <= B' -> cbound B s -> cbound B' s.
-Proof. intros Hle [Hb Hr]. split; [eapply Forall_mono_le; eauto | lia]. Qed.
-
-Lemma get_bar_le B s b : Forall (bar_le B) (s_bars s) -> bar_le B (get_bar s b).
-Proof.
-  intros Hl. destruct (Nat.lt_ge_cases (N.to_nat b) (length (s_bars s))) as [Hlt|Hge].
-  - rewrite Forall_forall in Hl. apply Hl. apply nth_In. exact Hlt.
-  - rewrite get_bar_oob by exact Hge. exact I.
-Qed.
-
-Lemma upd_keep_le B s b f : keeps_target f -> Forall (bar_le B) (s_bars s) -> Forall (bar_le B) (s_bars (upd_bar s b f)).
-Proof. intros Hf Hl. cbn. apply updN_Forall; [exact Hl|]. intros x. unfold bar_le. rewrite Hf. auto. Qed.
-
-Lemma upd_target_le B s b t : Forall (bar_le B) (s_bars s) ->
-  match t with TTerm tg => tt_n tg <= B | _ => True end ->
-  Forall (bar_le B) (s_bars (upd_bar s b (fun x => set_b_target x t))).
-Proof. intros Hl Ht. cbn. apply updN_Forall; [exact Hl|]. intros x _. unfold bar_le. cbn. exact Ht. Qed.
-
-Section Growth.
-  Variable W H : N.
-  Variable fails : N -> bool.
-
-  Lemma term_draw_n_le' tg ls c : tt_n (fst (fst (fst (term_draw W H fails tg ls c)))) <= H + tt_n tg.
-  Proof.
-    unfold term_draw. pose proof (draw_to_term_n_le ls (tt_n tg) (tt_align tg) (tt_below tg) W H) as Hle.
-    destruct (draw_to_term ls (tt_n tg) (tt_align tg) (tt_below tg) W H) as [[ops n'] below'].
-    destruct (emit fails c ops) as [[e c'] ok]. cbn [fst snd tt_n] in *. destruct ok; lia.
-  Qed.
-
-  Lemma ms_draw_rc m force extra now c :
-    region_count (fst (fst (fst (ms_draw W H fails m force extra now c)))) <= region_count m + H.
-  Proof.
-    destruct (ms_target m) as [|tg|i] eqn:Ht.
-    - rewrite ms_draw_hidden by (rewrite Ht; discriminate). cbn. lia.
-    - destruct (ms_draw_count W H fails m force extra now c tg Ht) as (HE & _ & Hno & Hyes).
-      destruct (ms_attempt W m force extra now); [|rewrite Hno by reflexivity; lia].
-      destruct (Hyes eq_refl) as (tg3 & Etg & Erc). rewrite Erc, <- Etg.
-      match goal with |- context [term_draw W H fails ?t ?l c] => pose proof (term_draw_n_le' t l c) as Hle end.
-      cbn [tt_n] in Hle. unfold ms_erase_n, region_count in *. rewrite Ht in *. cbn [target_n] in *.
-      destruct (ms_has_text m extra); lia.
-    - rewrite ms_draw_hidden by (rewrite Ht; discriminate). cbn. lia.
-  Qed.
-
-  Lemma ms_clear_rc m c : region_count (fst (fst (fst (ms_clear W H fails m c)))) <= region_count m + H.
-  Proof.
-    unfold ms_clear. destruct (ms_target m) as [|tg|i] eqn:Ht; try (cbn; lia).
-    pose proof (term_draw_n_le' (tt_adjust_clear tg (ms_zombie_lines m)) [] c) as Hle.
-    destruct (term_draw W H fails (tt_adjust_clear tg (ms_zombie_lines m)) [] c) as [[[tg2 e] c'] ok].
-    cbn [fst tt_n tt_adjust_clear] in *. unfold region_count. rewrite Ht. cbn. lia.
-  Qed.
-
-  Lemma ms_suspend_rc m ws now c :
-    region_count (fst (fst (ms_suspend W H fails m ws now c))) <= region_count m + 2 * H.
-  Proof.
-    unfold ms_suspend. pose proof (ms_clear_rc m c) as H1.
-    destruct (ms_clear W H fails m c) as [[[m1 e1] c1] ok1]. cbn [fst] in H1.
-    set (m1' := set_ms_target m1 _).
-    destruct (emit_each fails c1 (map TLine ws)) as [e2 c2].
-    pose proof (ms_draw_rc m1' true None now c2) as H2.
-    destruct (ms_draw W H fails m1' true None now c2) as [[[m3 e3] c3] ok3]. cbn [fst] in *.
-    assert (region_count m1' <= region_count m1).
-    { unfold m1', region_count. cbn. destruct (ms_target m1); cbn; lia. }
-    lia.
-  Qed.
-
-  Lemma ms_store_rc m idx t b : region_count (ms_store m idx t b) = region_count m.
-  Proof. reflexivity. Qed.
-
-  Lemma ms_remove_rc m idx : region_count (ms_remove_idx m idx) = region_count m.
-  Proof. destruct (remove_idx_other m idx) as (_ & _ & Ez & Et). unfold region_count. rewrite Ez, Et. reflexivity. Qed.
-
-  Lemma ms_insert_rc m loc m1 idx : ms_insert m loc = Some (m1, idx) -> region_count m1 = region_count m.
-  Proof.
-    unfold ms_insert. destruct (ms_free m) as [|i fr]; destruct loc as [|p|p|r|r]; cbn [ms_order set_ms_free set_ms_members];
-      try (intros E; injection E as <- _; reflexivity);
-      (destruct (posN r _); [intros E; injection E as <- _; reflexivity | discriminate]).
-  Qed.
-
-  Lemma bar_draw_cb B s b force now : cbound B s -> cbound (B + H) (fst (bar_draw W H fails s b force now)).
-  Proof.
-    intros [Hb Hr]. unfold bar_draw. pose proof (get_bar_le B s b Hb) as Hg. unfold bar_le in Hg.
-    destruct (b_target (get_bar s b)) as [|tg|idx].
-    - cbn [fst]. apply (cbound_mono B); [lia | split; assumption].
-    - destruct (tt_allow_keeps tg (force || finished (get_bar s b)) now) as (En & _ & _).
-      destruct (tt_allow tg (force || finished (get_bar s b)) now) as [al tg1]. cbn [snd] in En.
-      destruct al; cbn [negb].
-      + pose proof (term_draw_n_le' tg1 (frame_of (get_bar s b)) (s_calls s)) as Hle.
-        destruct (term_draw W H fails tg1 (frame_of (get_bar s b)) (s_calls s)) as [[[tg2 e] c'] ok].
-        cbn [fst] in *. split; [|cbn; lia].
-        change (s_bars (set_s_calls ?x c')) with (s_bars x).
-        apply upd_target_le; [eapply Forall_mono_le; [|exact Hb]; lia | lia].
-      + cbn [fst]. split; [|cbn; lia]. apply upd_target_le; [eapply Forall_mono_le; [|exact Hb]; lia | lia].
-    - set (bars := match ms_width W (s_mp s) with Some _ => _ | None => _ end).
-      pose proof (ms_draw_rc (ms_store (s_mp s) idx [] bars) (force || finished (get_bar s b)) None now (s_calls s)) as Hd.
-      destruct (ms_draw W H fails (ms_store (s_mp s) idx [] bars) (force || finished (get_bar s b)) None now (s_calls s))
-        as [[[m2 e] c'] ok]. cbn [fst] in *. rewrite ms_store_rc in Hd.
-      split; [cbn; eapply Forall_mono_le; [|exact Hb]; lia | cbn; lia].
-  Qed.
-
-  Lemma upd_draw_cb B s b f force now : keeps_target f -> cbound B s ->
-    cbound (B + H) (fst (bar_draw W H fails (upd_bar s b f) b force now)).
-  Proof. intros Hf [Hb Hr]. apply bar_draw_cb. split; [apply upd_keep_le; assumption | exact Hr]. Qed.
-End Growth.
-
-Section Growth2.
-  Variable W H : N.
-  Variable fails : N -> bool.
-
-  Lemma bar_println_cb B s b msg now : cbound B s -> cbound (B + H) (fst (bar_println W H fails s b msg now)).
-  Proof.
-    intros [Hb Hr]. unfold bar_println. pose proof (get_bar_le B s b Hb) as Hg. unfold bar_le in Hg.
-    destruct (b_target (get_bar s b)) as [|tg|idx].
-    - cbn [fst]. apply (cbound_mono B); [lia | split; assumption].
-    - pose proof (term_draw_n_le' W H fails tg (text_lines msg ++ frame_of (get_bar s b)) (s_calls s)) as Hle.
-      destruct (term_draw W H fails tg (text_lines msg ++ frame_of (get_bar s b)) (s_calls s)) as [[[tg2 e] c'] ok].
-      cbn [fst] in *. split; [|cbn; lia].
-      change (s_bars (set_s_calls ?x c')) with (s_bars x).
-      apply upd_target_le; [eapply Forall_mono_le; [|exact Hb]; lia | lia].
-    - set (bars := match ms_width W (s_mp s) with Some _ => _ | None => _ end).
-      pose proof (ms_draw_rc W H fails (ms_store (s_mp s) idx (text_lines msg) bars) true None now (s_calls s)) as Hd.
-      destruct (ms_draw W H fails (ms_store (s_mp s) idx (text_lines msg) bars) true None now (s_calls s))
-        as [[[m2 e] c'] ok]. cbn [fst] in *. rewrite ms_store_rc in Hd.
-      split; [cbn; eapply Forall_mono_le; [|exact Hb]; lia | cbn; lia].
-  Qed.
-
-  Lemma bar_suspend_cb B s b ws now : cbound B s -> cbound (B + 2 * H) (fst (bar_suspend W H fails s b ws now)).
-  Proof.
-    intros [Hb Hr]. unfold bar_suspend. pose proof (get_bar_le B s b Hb) as Hg. unfold bar_le in Hg.
-    destruct (b_target (get_bar s b)) as [|tg|idx].
-    - destruct (emit_each fails (s_calls s) (map TLine ws)) as [e c']. cbn [fst].
-      apply (cbound_mono B); [lia | split; assumption].
-    - pose proof (term_draw_n_le' W H fails tg [] (s_calls s)) as Hle.
-      destruct (term_draw W H fails tg [] (s_calls s)) as [[[tg1 e1] c1] ok1]. cbn [fst] in Hle.
-      destruct (emit_each fails c1 (map TLine ws)) as [e2 c2].
-      set (s1 := set_s_calls _ c2).
-      assert (C1 : cbound (B + H) s1).
-      { split; [|cbn; lia]. unfold s1. change (s_bars (set_s_calls ?x c2)) with (s_bars x).
-        apply upd_target_le; [eapply Forall_mono_le; [|exact Hb]; lia | lia]. }
-      pose proof (bar_draw_cb W H fails (B + H) s1 b true now C1) as C2.
-      destruct (bar_draw W H fails s1 b true now) as [s2 e3]. cbn [fst] in *.
-      eapply cbound_mono; [|exact C2]. lia.
-    - pose proof (ms_suspend_rc W H fails (s_mp s) ws now (s_calls s)) as Hs.
-      destruct (ms_suspend W H fails (s_mp s) ws now (s_calls s)) as [[m2 e] c']. cbn [fst] in *.
-      split; [cbn; eapply Forall_mono_le; [|exact Hb]; lia | cbn; lia].
-  Qed.
-
-  Lemma set_target_cb B s b idx now : cbound B s ->
-    cbound (B + H) (fst (bar_set_target W H fails s b (TMulti idx) now)).
-  Proof.
-    intros [Hb Hr]. unfold bar_set_target. destruct (b_target (get_bar s b)) as [|tg|idx0].
-    - cbn [fst]. split; [apply upd_target_le; [eapply Forall_mono_le; [|exact Hb]; lia | exact I] | cbn; lia].
-    - cbn [fst]. split; [apply upd_target_le; [eapply Forall_mono_le; [|exact Hb]; lia | exact I] | cbn; lia].
-    - pose proof (ms_draw_rc W H fails (ms_store (s_mp s) idx0 [] []) true None now (s_calls s)) as Hd.
-      destruct (ms_draw W H fails (ms_store (s_mp s) idx0 [] []) true None now (s_calls s)) as [[[m2 e] c'] ok].
-      cbn [fst] in *. rewrite ms_store_rc in Hd.
-      split; [apply upd_target_le; [cbn; eapply Forall_mono_le; [|exact Hb]; lia | exact I] | cbn; lia].
-  Qed.
-
-  Lemma insert_cb B s b (lo : option iloc) now : cbound B s ->
-    cbound (B + 2 * H)
-      (fst (fst (match match lo with Some l => ms_insert (s_mp s) l | None => None end with
-                 | Some (m1, idx) =>
-                     (fun r : sys * list termop => (fst r, snd r, true))
-                       (bar_set_target W H fails (set_s_mp s m1) b (TMulti idx) now)
-                 | None => (s, [], true)
-                 end))).
-  Proof.
-    intros CB. pose proof CB as [Hb Hr].
-    destruct (match lo with Some l => ms_insert (s_mp s) l | None => None end) as [[m1 idx]|] eqn:Eins;
-      [|cbn [fst]; apply (cbound_mono B); [lia | exact CB]].
-    assert (Erc : region_count m1 = region_count (s_mp s)).
-    { destruct lo as [l|]; [apply (ms_insert_rc (s_mp s) l m1 idx Eins) | discriminate Eins]. }
-    cbn [fst]. apply (cbound_mono (B + H)); [lia|]. apply set_target_cb.
-    split; [exact Hb | cbn; lia].
-  Qed.
-
-  Lemma step_cb B s now o : cbound B s -> cbound (B + 2 * H) (step_sys W H fails s now o).
-  Proof.
-    intros CB. pose proof CB as [Hb Hr]. unfold step_sys.
-    assert (Hup : forall b f force, keeps_target f ->
-              cbound (B + 2 * H) (fst (bar_draw W H fails (upd_bar s b f) b force now))).
-    { intros b f force Hf. eapply cbound_mono; [|apply (upd_draw_cb W H fails B); [exact Hf | exact CB]]. lia. }
-    assert (Hpos : forall b f, cbound (B + 2 * H) (fst (bar_pos_update W H fails s b f now))).
-    { intros b f. unfold bar_pos_update.
-      destruct (ap_allow _ now) as [al ap']. destruct al.
-      - unfold bar_tick. eapply cbound_mono; [|apply (upd_draw_cb W H fails B)]; [lia | intros x; reflexivity |].
-        split; [|exact Hr]. apply upd_keep_le; [intros x; reflexivity|]. apply upd_keep_le; [intros x; reflexivity | exact Hb].
-      - cbn [fst]. apply (cbound_mono B); [lia|]. split; [|exact Hr].
-        apply upd_keep_le; [intros x; reflexivity|]. apply upd_keep_le; [intros x; reflexivity | exact Hb]. }
-    destruct o; cbn [step fst snd];
-      try (apply Hup; intros x; reflexivity); try apply Hpos;
-      try (apply (cbound_mono B); [lia | exact CB]).
-    - (* set_style *) apply (cbound_mono B); [lia|]. split; [apply upd_keep_le; [intros x; reflexivity | exact Hb] | exact Hr].
-    - (* println *) eapply cbound_mono; [|apply bar_println_cb; exact CB]. lia.
-    - (* suspend *) apply bar_suspend_cb; exact CB.
-    - (* finish *) unfold bar_finish. apply (Hup b (finish_upd k) true). apply keeps_finish.
-    - (* finish_using_style *) unfold bar_finish. apply (Hup b (finish_upd (b_on_finish (get_bar s b))) true). apply keeps_finish.
-    - (* force_draw *) eapply cbound_mono; [|apply bar_draw_cb; exact CB]. lia.
-    - (* set_tab_width *) eapply cbound_mono; [|apply bar_draw_cb; exact CB]. lia.
-    - (* drop *)
-      unfold bar_drop.
-      assert (C1 : cbound (B + 2 * H) (fst (if finished (get_bar s b) then (s, [])
-                                            else bar_finish W H fails s b (b_on_finish (get_bar s b)) now))).
-      { destruct (finished (get_bar s b)); [cbn [fst]; apply (cbound_mono B); [lia | exact CB]|].
-        unfold bar_finish. apply (Hup b (finish_upd (b_on_finish (get_bar s b))) true). apply keeps_finish. }
-      destruct (if finished (get_bar s b) then (s, []) else bar_finish W H fails s b (b_on_finish (get_bar s b)) now) as [s1 e].
-      cbn [fst] in *. destruct C1 as [Hb1 Hr1]. split.
-      + apply upd_keep_le; [intros x; reflexivity|]. unfold mark_zombie. destruct (b_target (get_bar s1 b)); exact Hb1.
-      + change (s_mp (upd_bar ?x b ?f)) with (s_mp x). unfold mark_zombie.
-        destruct (b_target (get_bar s1 b)); try exact Hr1. cbn [s_mp set_s_mp]. rewrite (proj1 (mark_zombie_counts W (s_mp s1) idx)). exact Hr1.
-    - (* insert *)
-      destruct (b_target (get_bar s b)) as [|tg0|i0] eqn:Htb; [| |cbn [fst]; apply (cbound_mono B); [lia | exact CB]].
-      + apply insert_cb; exact CB.
-      + apply insert_cb; exact CB.
-    - (* remove *)
-      destruct (b_target (get_bar s b)) as [|tg0|idx] eqn:Htb; try (cbn [fst]; apply (cbound_mono B); [lia | exact CB]).
-      cbn [s_mp upd_bar set_s_bars s_calls].
-      pose proof (ms_draw_rc W H fails (ms_remove_idx (s_mp s) idx) true None now (s_calls s)) as Hd.
-      destruct (ms_draw W H fails (ms_remove_idx (s_mp s) idx) true None now (s_calls s)) as [[[m2 e] c'] ok].
-      cbn [fst] in *. rewrite ms_remove_rc in Hd. split; [|cbn; lia]. cbn.
-      apply updN_Forall; [eapply Forall_mono_le; [|exact Hb]; lia|]. intros x _. exact I.
-    - (* mp.println *)
-      match goal with |- context [ms_draw W H fails (s_mp s) true (Some ?ls) now (s_calls s)] =>
-        pose proof (ms_draw_rc W H fails (s_mp s) true (Some ls) now (s_calls s)) as Hd;
-        destruct (ms_draw W H fails (s_mp s) true (Some ls) now (s_calls s)) as [[[m2 e] c'] ok] end.
-      cbn [fst] in *. split; [cbn; eapply Forall_mono_le; [|exact Hb]; lia | cbn; lia].
-    - (* mp.suspend *)
-      pose proof (ms_suspend_rc W H fails (s_mp s) ws now (s_calls s)) as Hs.
-      destruct (ms_suspend W H fails (s_mp s) ws now (s_calls s)) as [[m2 e] c']. cbn [fst] in *.
-      split; [cbn; eapply Forall_mono_le; [|exact Hb]; lia | cbn; lia].
-    - (* mp.clear *)
-      pose proof (ms_clear_rc W H fails (s_mp s) (s_calls s)) as Hs.
-      destruct (ms_clear W H fails (s_mp s) (s_calls s)) as [[[m2 e] c'] ok]. cbn [fst] in *.
-      split; [cbn; eapply Forall_mono_le; [|exact Hb]; lia | cbn; lia].
-  Qed.
-End Growth2.
-
-(* ------------------------------------------------------------------ fresh targets: no hypothesis on the counters *)
-Section Fresh.
-  Variable W H : N.
-  Hypothesis HH : H < U16.
-
-  Lemma run_cb fails ops : forall B s, cbound B s ->
-    cbound (B + 2 * H * N.of_nat (length ops)) (run W H fails s ops).
-  Proof.
-    clear HH. induction ops as [|[now o] r IH]; intros B s CB; cbn [run length].
-    - eapply cbound_mono; [|exact CB]. lia.
-    - eapply cbound_mono; [|apply IH, (step_cb W H fails B s now o CB)]. lia.
-  Qed.
-
-  Lemma cbound_fits B s : cbound B s -> B + 2 * U16 <= USIZE -> counters_fit s.
-  Proof.
-    intros [Hb Hr] HB. split.
-    - intros b tg Ht. pose proof (get_bar_le B s b Hb) as Hg. unfold bar_le in Hg. rewrite Ht in Hg. lia.
-    - intros tg Ht. unfold region_count in Hr. rewrite Ht in Hr. cbn [target_n] in Hr. lia.
-  Qed.
-
-  Lemma counters_zero_cb s : counters_zero s -> cbound 0 s.
-  Proof.
-    clear HH. intros [Hb Hr]. split; [|unfold region_count; lia].
-    eapply Forall_impl; [|exact Hb]. intros x. unfold bar_le. destruct (b_target x); auto. lia.
-  Qed.
-
-  Lemma calls_bound n : n < CALLS_MAX -> 2 * H * n + 2 * U16 <= USIZE.
-  Proof. unfold CALLS_MAX, U16, USIZE, U64 in *. nia. Qed.
-
-
-  Lemma hist_fits_of_cbound fails ops : forall B s, cbound B s ->
-    B + 2 * H * N.of_nat (length ops) + 2 * U16 <= USIZE -> hist_fits W H fails s ops.
-  Proof.
-    induction ops as [|[now o] r IH]; intros B s CB HB; cbn [hist_fits length] in *; [exact I|].
-    split; [apply (cbound_fits B); [exact CB | lia]|].
-    apply (IH (B + 2 * H)); [apply step_cb; exact CB | lia].
-  Qed.
-
-  (** (1) without any hypothesis on the counters: targets created fresh, fewer than 2^46 calls *)
-  Theorem no_panic_fresh fails fails' s0 ops now o :
-    init_ok s0 -> counters_zero s0 -> hist_ok W H fails s0 ops -> N.of_nat (length ops) < CALLS_MAX ->
-    op_ok (run W H fails s0 ops) o = true ->
-    step_panics W H fails' (run W H fails s0 ops) now o = None.
-  Proof.
-    intros Hi Hz Hh Hn Hk. apply (no_panic_reachable W H HH fails fails' s0 ops now o); auto.
-    apply (cbound_fits (0 + 2 * H * N.of_nat (length ops))).
-    - apply run_cb, counters_zero_cb, Hz.
-    - pose proof (calls_bound _ Hn). lia.
-  Qed.
-
-  (** (3) the same for whole histories under an arbitrary fault oracle *)
-  Theorem run_no_panic_fresh fails s0 ops :
-    init_ok s0 -> counters_zero s0 -> hist_ok W H fails s0 ops -> N.of_nat (length ops) < CALLS_MAX ->
-    run_panics W H fails s0 ops = None.
-  Proof.
-    intros Hi Hz Hh Hn. apply (run_no_panic_init W H HH); auto.
-    apply (hist_fits_of_cbound fails ops 0 s0); [apply counters_zero_cb, Hz|].
-    pose proof (calls_bound _ Hn). lia.
-  Qed.
-
-  (** the counters of any run from fresh targets: at most 2 * H per call, under every oracle *)
-  Theorem counters_grow fails s0 ops : counters_zero s0 ->
-    let s := run W H fails s0 ops in
-    (forall b tg, b_target (get_bar s b) = TTerm tg -> tt_n tg <= 2 * H * N.of_nat (length ops))
-    /\ region_count (s_mp s) <= 2 * H * N.of_nat (length ops).
-  Proof.
-    clear HH. intros Hz. cbv zeta. destruct (run_cb fails ops 0 s0 (counters_zero_cb s0 Hz)) as [Hb Hr]. split.
-    - intros b tg Ht. pose proof (get_bar_le _ _ b Hb) as Hg. unfold bar_le in Hg. rewrite Ht in Hg. lia.
-    - lia.
-  Qed.
-End Fresh.
-
-Lemma counters_zero_b_ok s : counters_zero_b s = true -> counters_zero s.
-Proof.
-  unfold counters_zero_b, counters_zero. intros Hb. apply andb_prop in Hb. destruct Hb as [Hbars Hmp]. split.
-  - apply Forall_forall. intros x Hx. rewrite forallb_forall in Hbars. specialize (Hbars x Hx).
-    destruct (b_target x); auto. apply N.eqb_eq. exact Hbars.
-  - apply N.eqb_eq. exact Hmp.
-Qed.
-
-
-Lemma fresh_example : counters_zero np_sys /\ N.of_nat (length np_ops2) < CALLS_MAX.
-Proof. split; [apply counters_zero_b_ok; vm_compute; reflexivity | vm_compute; reflexivity]. Qed.
